@@ -377,19 +377,23 @@ class PrefetchedCourierServer(CourierServer):
     """Stop the prefetch if the generator is not exhausted."""
     if self._generator is not None:
       with self._generator_lock:
-        if not self._generator.exhausted:
-          logging.warning(
-              'chainable: %s',
-              'A generator is reset while the previous is unexhausted.',
-          )
-          if fatal:
-            e = RuntimeError('A generator was stopped before exhausted.')
-          else:
-            e = TimeoutError('A generator was stopped before exhausted.')
-          self._generator.maybe_stop(e)
-          if self._enqueue_thread:
-            self._enqueue_thread.join()
-          logging.info('chainable: %s', 'Prefetching stopped.')
+        self._stop_prefetch_locked(fatal)
+
+  def _stop_prefetch_locked(self, fatal: bool = False):
+    """Same as `_stop_prefetch`, the caller holds `_generator_lock`."""
+    if self._generator is not None and not self._generator.exhausted:
+      logging.warning(
+          'chainable: %s',
+          'A generator is reset while the previous is unexhausted.',
+      )
+      if fatal:
+        e = RuntimeError('A generator was stopped before exhausted.')
+      else:
+        e = TimeoutError('A generator was stopped before exhausted.')
+      self._generator.maybe_stop(e)
+      if self._enqueue_thread:
+        self._enqueue_thread.join()
+      logging.info('chainable: %s', 'Prefetching stopped.')
 
   def _init_iterator(self, maybe_lazy):
     """Initialize the iterator."""
@@ -402,6 +406,9 @@ class PrefetchedCourierServer(CourierServer):
     logging.info('chainable: %s', f'Initializing a generator: {maybe_lazy}')
     self._stop_prefetch()
     with self._generator_lock:
+      # A concurrent initialization can have installed its generator since the
+      # stop above: replacing it without stopping it leaks its prefetch thread.
+      self._stop_prefetch_locked()
       logging.debug('chainable: %s', f'Constructing generator: {maybe_lazy}')
       result = lazy_fns.maybe_make(maybe_lazy)
       if not isinstance(result, Iterable):
